@@ -1012,16 +1012,18 @@ func mgetHoleRefillRule(r *Report, rule string) {
 			if !isc || CalleeName(c) != "rueidis.(*RedisMessage).values" || !strings.Contains(DescDeep(c.Call.Args[0]), "RedisResult.val") {
 				continue
 			}
-			hole := false
-			for _, g := range DomGuards(s.Block) {
+			// on every feasible way in, the slot written was found empty (typ == 0): a dominating test, or
+			// the exit of a scan loop `for j < len && vals[j].typ != 0 { j++ }` followed by `j < len`
+			hole := AllDisjuncts(GuardDNF(s.Block, 4), func(g Guard) bool {
 				x, op, y, cok := CmpGuard(g)
 				k, isk := ConstInt(y)
 				if cok && op == token.EQL && isk && k == 0 && strings.HasSuffix(Desc(x), ".typ") {
 					if _, ki, isel := elemOfDeep(x); isel && ki == ia.Index {
-						hole = true
+						return true
 					}
 				}
-			}
+				return false
+			})
 			stores = append(stores, slotStore{s, hole})
 		}
 		nHole, nOther := 0, 0
